@@ -119,6 +119,9 @@ pub struct StructDef {
 pub struct Variant {
     pub name: String,
     pub rename: Option<String>,
+    /// `Name(T)`: a data-carrying (newtype) variant
+    #[serde(default)]
+    pub payload: Option<Ty>,
 }
 
 #[derive(Clone, Debug, PartialEq, Serialize, Deserialize)]
@@ -276,7 +279,10 @@ pub fn render_item(it: &Item) -> String {
                 if let Some(r) = &v.rename {
                     o.push_str(&format!("    #[serde(rename = \"{}\")]\n", r));
                 }
-                o.push_str(&format!("    {},\n", v.name));
+                match &v.payload {
+                    Some(t) => o.push_str(&format!("    {}({}),\n", v.name, t.render())),
+                    None => o.push_str(&format!("    {},\n", v.name)),
+                }
             }
             o.push_str("}\n");
             o
@@ -812,6 +818,7 @@ pub fn gen_model(r: &mut Rng, p: &GenParams) -> Model {
                     } else {
                         None
                     },
+                    payload: None,
                 })
                 .collect();
             items.push(Item::Enum(EnumDef {
@@ -855,6 +862,24 @@ pub fn gen_model(r: &mut Rng, p: &GenParams) -> Model {
             }));
         }
         type_names.push(name);
+    }
+    // data-carrying variants: a third of the enums give one variant a payload naming an earlier
+    // type (own stream, so that the rest of the project is what it was before this existed)
+    {
+        let mut er = r.split("enum-payloads");
+        for idx in 1..items.len() {
+            if let Item::Enum(e) = &mut items[idx] {
+                if er.chance(1, 3) {
+                    let t = Ty::Named(type_names[er.below(idx as u64) as usize].clone());
+                    let v = er.below(e.variants.len() as u64) as usize;
+                    e.variants[v].payload = Some(match er.below(3) {
+                        0 => t,
+                        1 => Ty::Vec(Box::new(t)),
+                        _ => Ty::Opt(Box::new(t)),
+                    });
+                }
+            }
+        }
     }
 
     // commands
@@ -999,5 +1024,33 @@ pub fn gen_decoy(r: &mut Rng, nm: &mut Namer) -> Item {
                 t = t
             ))
         }
+    }
+}
+
+/// Grow a project to `target` source files: many small files below a few more directories,
+/// each with one plain command (two thirds) or only items the tool ignores (one third).
+/// "For projects of any number of files": thresholds, batch sizes and capacities live here.
+pub fn widen(m: &mut Model, r: &mut Rng, target: usize) {
+    let mut nm = Namer::from_model(m);
+    let mut k = 0usize;
+    while m.files.len() < target {
+        k += 1;
+        let dir = ["src/bulk", "src/bulk/a", "src/bulk/b", "src/api/v1"][k % 4];
+        let path = format!("{}/part_{:03}.rs", dir, k);
+        let item = if r.chance(1, 3) {
+            gen_decoy(r, &mut nm)
+        } else {
+            Item::Cmd(Command {
+                name: nm.fresh(r, "cmd"),
+                params: vec![Param { name: nm.fresh(r, "field"), ty: Ty::Prim(r.pick(PRIMS).to_string()) }],
+                chans: vec![],
+                ret: if r.chance(1, 2) { Some(Ty::Prim(r.pick(PRIMS).to_string())) } else { None },
+                is_async: r.chance(1, 2),
+                short_attr: false,
+                emits: vec![],
+                is_command: true,
+            })
+        };
+        m.files.push(SrcFile { path, items: vec![item] });
     }
 }
